@@ -399,6 +399,10 @@ pub fn pick_n(rng: &mut Rng, big: usize) -> usize {
     if rng.below(60) == 0 {
         return rng.range(4100, 9000);
     }
+    // and very rarely one that crosses 2^15 and 2^16 (count thresholds, narrow integer casts)
+    if rng.below(3000) == 0 {
+        return rng.range(20_000, 100_000);
+    }
     match rng.below(20) {
         0 => 0,
         1 => 1,
